@@ -668,7 +668,9 @@ def camp_c07(rnd, tier):
         o = b.newb(kind, "default")
         bit_rs_queries(b, o, Seqn.from_values([]), rnd, rank=False, select0=(kind == "DA1"))
     # positions beyond 2^32 (the zeros inventory of DA1 over 2^32 leading zeros takes ~10 s: thorough only)
-    big_bits(b, rnd, ["DA0"] if tier == "quick" else ["DA0", "DA1"], nobj=1 if tier == "quick" else 2, fills=(0,) if tier == "quick" else (0, 1))
+    big_bits(b, rnd, ["DA0"] if tier == "quick" else ["DA0", "DA1"], fills=(0,))
+    if tier == "thorough":
+        big_bits(b, rnd, ["DA0"], fills=(1,))
     return b
 
 
